@@ -1,16 +1,18 @@
 #!/bin/bash
-# import_seeds.sh cNN : copy seed1/seed2 from /tmp/seed_cNN into /verif/seeded/CNN-{1,2} and confirm them
+# import_seeds.sh cNN [srcdir] [offset] : copy seed1/seed2 from srcdir (default /tmp/seed_cNN) into
+# /verif/seeded/CNN-{1+offset,2+offset} and confirm them (tools/seedtest.py)
 set -e
 cd "$(dirname "$0")/.."
-p=$1; P=${p^^}
+p=$1; P=${p^^}; src=${2:-/tmp/seed_$p}; off=${3:-0}
 for n in 1 2; do
-  [ -f /tmp/seed_$p/seed$n.diff ] || continue
-  d=seeded/$P-$n; mkdir -p $d
-  cp /tmp/seed_$p/seed$n.diff $d/patch.diff; cp /tmp/seed_$p/demo$n.cpp $d/demo.cpp; cp /tmp/seed_$p/seed$n.md $d/notes.md 2>/dev/null || true
+  [ -f $src/seed$n.diff ] || continue
+  k=$((n+off))
+  d=seeded/$P-$k; mkdir -p $d
+  cp $src/seed$n.diff $d/patch.diff; cp $src/demo$n.cpp $d/demo.cpp; cp $src/seed$n.md $d/notes.md 2>/dev/null || true
   python3 - <<PY
 import json
-json.dump({"property":"$P","id":"$P-$n","source":"independent sub-agent given only the property text and a scratch worktree","notes":"notes.md"}, open("$d/meta.json","w"), indent=1)
+json.dump({"property":"$P","id":"$P-$k","source":"independent sub-agent given only the property text and a scratch worktree","notes":"notes.md"}, open("$d/meta.json","w"), indent=1)
 PY
-  echo "== $P-$n"
+  echo "== $P-$k"
   python3 tools/seedtest.py $d 2>&1 | grep -E "demo_clean|demo_patched\"|suite|detected|VIOLATION|what|clean_tree|apply" | cut -c1-300
 done
